@@ -43,8 +43,9 @@ def obligations(tier, seed):
     obs = []
 
     def ob(name, func, desc, bnd, reach, otier="quick", timeout=300, mem_gb=4, functional=False, solver=None, encodes=None,
-           outside="", assumes=(), bounds_txt="", **kw):
+           outside="", assumes=(), bounds_txt="", extra_defs=None, **kw):
         d, unwind, us = bounds(**bnd)
+        d.update(extra_defs or {})
         flags = ["--no-pointer-check"] if functional else []
         stubs = list(STUBS) + ([] if bnd.get("direct") else [CUT])
         if functional:
@@ -97,17 +98,67 @@ def obligations(tier, seed):
        timeout=400, assumes=[ASSUME_I, TYPES],
        bounds_txt="list <= 2 records, 1 event, <= 1 nested API call", outside=OUT)
 
+    MASK6 = "0x4000001F"   # CLOSE, TTX_PAGE, CAPTION, NETWORK, TRIGGER + one undefined bit
+    REACH_D = ["end", "three_calls", "added_during_delivery_called", "removed_itself", "removed_before_its_turn", "ttx_on_in_callback"]
+    MTXT = ("masks: any subset of the 6 bits %s (CLOSE, TTX_PAGE, CAPTION, NETWORK, TRIGGER, one undefined bit); the list code treats mask bits uniformly "
+            "(zero test, |=, & type), all 32 bits are covered by api_step*, deliver_1_safe and the [full] instance" % MASK6)
+
     ob("deliver_2_nested", "h_deliver",
+       "from every list satisfying I (0..3 records) one event; up to two invoked handlers make one nested API call each (e.g. the first removes the third, the second "
+       "registers it again = new instance at the end of the order). " + DELIVER,
+       dict(n0=3, cbk=2), REACH_D, functional=True, timeout=400, assumes=[ASSUME_I, TYPES],
+       bounds_txt="list <= 3 records, 1 event, <= 2 nested API calls per event, one per callback; " + MTXT,
+       extra_defs=dict(MASK_AND=MASK6), outside=OUT)
+
+    ob("deliver_2_nested_full", "h_deliver",
+       "deliver_2_nested with all 32-bit masks. " + DELIVER,
+       dict(n0=3, cbk=2), REACH_D, functional=True, timeout=1800, otier="thorough", solver="cadical", assumes=[ASSUME_I, TYPES],
+       bounds_txt="list <= 3 records, 1 event, <= 2 nested API calls per event, one per callback; all 32-bit masks", outside=OUT)
+
+    ob("deliver_2_selfreadd", "h_deliver",
        "from every list satisfying I (0..3 records) one event; every invoked handler may make up to TWO nested API calls (so a handler can remove itself and register "
-       "itself again = new instance at the end of the order), two nested calls per event in total. " + DELIVER,
-       dict(n0=3, cbk=2, nact=2), ["end", "three_calls", "added_during_delivery_called", "removed_itself", "removed_before_its_turn", "ttx_on_in_callback"],
-       functional=True, timeout=600, assumes=[ASSUME_I, TYPES],
-       bounds_txt="list <= 3 records, 1 event, <= 2 nested API calls per event (both may come from one callback)", outside=OUT)
+       "itself again = new instance at the end of the order, called at most once more), two nested calls per event in total. " + DELIVER,
+       dict(n0=3, cbk=2, nact=2, extra=dict(MASK_AND=MASK6)), REACH_D, functional=True, timeout=1800, otier="thorough", assumes=[ASSUME_I, TYPES],
+       bounds_txt="list <= 3 records, 1 event, <= 2 nested API calls per event (both may come from one callback); " + MTXT, outside=OUT)
 
     ob("deliver_3_nested", "h_deliver",
        "from every list satisfying I (0..3 records) one event; up to three invoked handlers make one nested API call each. " + DELIVER,
-       dict(n0=3, cbk=3), ["end", "three_calls", "added_during_delivery_called", "removed_itself", "removed_before_its_turn", "ttx_on_in_callback"],
-       functional=True, timeout=900, otier="thorough", assumes=[ASSUME_I, TYPES],
-       bounds_txt="list <= 3 records, 1 event, <= 3 nested API calls per event, one per callback", outside=OUT)
+       dict(n0=3, cbk=3, extra=dict(MASK_AND=MASK6)), REACH_D, functional=True, timeout=1800, otier="thorough", assumes=[ASSUME_I, TYPES],
+       bounds_txt="list <= 3 records, 1 event, <= 3 nested API calls per event, one per callback; " + MTXT, outside=OUT)
+
+    ob("deliver_2_safe", "h_deliver",
+       "as deliver_2_nested with ALL pointer checks on (no freed record read by the traversal or by the nested list walks after two nested removals/additions). " + DELIVER,
+       dict(n0=3, cbk=2, extra=dict(MASK_AND=MASK6)), REACH_D, timeout=1800, otier="thorough", assumes=[ASSUME_I, TYPES],
+       bounds_txt="list <= 3 records, 1 event, <= 2 nested API calls per event, one per callback; " + MTXT, outside=OUT)
+
+    ob("deliver_2_events", "h_deliver",
+       "from every list satisfying I (0..3 records) TWO events in a row (symbolic types), one nested API call per event: a registration/mask change/removal made "
+       "during the first event is in force for the second (no stale cursor, no stale 'called' state). " + DELIVER,
+       dict(n0=3, cbk=1, nev=2), REACH_D, timeout=1800, otier="thorough", assumes=[ASSUME_I, TYPES],
+       bounds_txt="list <= 3 records, 2 events, <= 1 nested API call per event; all 32-bit masks", outside=OUT)
+
+    ob("deliver_wrappers", "h_deliver",
+       "as deliver_1_safe, the nested call may also be one of the wrappers vbi_event_handler_unregister / vbi_event_handler_remove. " + DELIVER,
+       dict(n0=3, cbk=1, extra=dict(CB_WRAPPERS=1)), REACH_D, timeout=1800, otier="thorough", assumes=[ASSUME_I, TYPES],
+       bounds_txt="list <= 3 records, 1 event, <= 1 nested API call; all 32-bit masks", outside=OUT)
+
+    ob("deliver_1_safe_n4", "h_deliver",
+       "as deliver_1_safe with up to 4 records in the initial list and 4 handler functions. " + DELIVER,
+       dict(n0=4, cbk=1, nf=4), REACH_D, timeout=1800, otier="thorough", assumes=[ASSUME_I, TYPES],
+       bounds_txt="list <= 4 records, 4 handler functions x 2 user pointers, 1 event, <= 1 nested API call; all 32-bit masks", outside=OUT)
+
+    ob("api_step_n5", "h_api_step", "api_step with lists of 0..5 records (of the 6 possible (function, user pointer) pairs)",
+       dict(n0=5, cbk=1), ["end", "appended", "removed_two", "ttx_on", "ttx_off"], timeout=900, otier="thorough", assumes=[ASSUME_I],
+       bounds_txt="one API call from any list of <= 5 records", outside=OUT)
+    ob("api_step_in_callback_n5", "h_api_step_cb", "api_step_in_callback with lists of 0..5 records and every cursor position",
+       dict(n0=5, cbk=1), ["end", "cursor_patched", "cursor_tail_removed", "ttx_on_in_callback"], timeout=900, otier="thorough", assumes=[ASSUME_I],
+       bounds_txt="one API call from any list of <= 5 records, every cursor position", outside=OUT)
+
+    ob("events_seq", "h_events",
+       "SEQ cross-check without the invariant: zero decoder (constructor state) satisfies I; 3 symbolic API calls (all four functions); I and the exact list after them; "
+       "then one event with one nested API call. " + DELIVER,
+       dict(n0=1, r_ops=3, cbk=1), ["end", "three_calls", "added_during_delivery_called", "removed_itself", "removed_before_its_turn", "ttx_on", "ttx_off"],
+       functional=True, timeout=1800, otier="thorough", assumes=[TYPES],
+       bounds_txt="3 API calls, 1 event, <= 1 nested API call; all 32-bit masks", outside=OUT)
 
     return obs
